@@ -51,6 +51,21 @@ theorem ioloop_shape :
     Lookupd.callsIOLoop =
       ["ReadString", "Exec", "SendResponse", "SendResponse", "LookupRegistrations", "RemoveProducer"] := by decide
 
+/-- Every way out of the `for` loop of `IOLoop` is a `break` (read error; error answer that could
+not be written; fatal error; success answer that could not be written) — there is no `return`,
+`goto` or `panic` inside the loop — so all of them fall into the three statements after the
+loop: the log line, the clean-up `if client.peerInfo != nil { … RemoveProducer … }` and
+`return err`. This is `ioLoop` ending every branch in `disconnect` (theorem
+`disconnect_every_exit`). -/
+theorem ioloop_exits_all_reach_cleanup :
+    Lookupd.ioLoopExits =
+      ["break | if err != nil",
+       "break | if err != nil && if sendErr != nil",
+       "break | if err != nil && if _, ok := err.(*protocol.FatalClientErr); ok",
+       "continue | if err != nil",
+       "break | if response != nil && if err != nil",
+       "after: 3 statements"] := by decide
+
 theorem getTopicChan_guards :
     Lookupd.getTopicChanStmts =
       ["if len(params) == 0", "if len(params) >= 2", "if !protocol.IsValidTopicName(topicName)",
